@@ -308,6 +308,9 @@ SHAPES = {
     "star2-same": ("=a_,x=D:*/=a_,a_x=D:*/-,a_a_x=T:0:1,b_a_x=T:0:2", "0,1,2,2"),
     "star2-diff": ("=a_,x=D:*/=b_,a_x=D:*/-,a_a_x=T:0:1,b_a_x=T:0:2", "0,1,2,2"),
     "star2-diffP": ("=a_,x=P:*/=b_,a_x=P:*/-,a_a_x=T:0:1,b_a_x=T:1:2", "0,1,2,2"),
+    # '*' chain whose write walk ends on c.a_a_x while reads / listener hooks go on through c.b_a_x -> d.b_a_x:
+    # the only shape where `del` of a prototyped value can raise after deleting
+    "star2-deep": ("=a_,x=P:*/=b_,a_x=P:*/-,a_a_x=T:0:1,b_a_x=P:/-,b_a_x=T:1:2", "0,1,2,3,3"),
     # prefix chains with renaming at every level
     "pre-chain": ("-,x=D:p_*/-,p_x=P:q_*/-,q_p_x=T:0:3,p_x=T:1:9", "0,1,2,2"),
     # malformed: target missing on the delegate's class; '*' without __prefix__; empty __prefix__
@@ -316,7 +319,7 @@ SHAPES = {
     "star-emptypfx": ("=,x=D:*,y=P:*/-,x=T:0:3,y=T:1:4", "0,0,1,1"),
 }
 MAIN_SHAPES = ["same-D", "same-P", "expl-D", "expl-P", "pre-D", "pre-P", "star-D", "star-P"]
-CHAIN_SHAPES = ["D-P-T", "P-D-T", "self-D", "star2-same", "star2-diff", "star2-diffP", "pre-chain"]
+CHAIN_SHAPES = ["D-P-T", "P-D-T", "self-D", "star2-same", "star2-diff", "star2-diffP", "star2-deep", "pre-chain"]
 ODD_SHAPES = ["missing", "star-nopfx", "star-emptypfx"]
 
 
